@@ -145,7 +145,7 @@ def gen_scenario(rng, nfiles=None, shared=False):
             # pre-existing target files
             r = rng.random()
             if r < 0.45:
-                mode = rng.choice(["match", "match", "wrongsize", "nodate", "wrongdate", "partial", "linked"])
+                mode = rng.choice(["match", "match", "wrongsize", "nodate", "wrongdate", "partial", "linked", "stale", "stale"])
                 tagc[0] += 1
                 size = v.size if v.size > 0 else rng.randint(1, 9)
                 mt = date
@@ -158,11 +158,20 @@ def gen_scenario(rng, nfiles=None, shared=False):
                 elif mode == "partial":
                     size = max(0, size - 1)
                     mt = None
+                if mode == "stale" and v.size > 0:
+                    # a stale server keeps announcing and serving exactly the (wrongly sized) local copy
+                    size = v.size + rng.choice([-1, 1, 7]) if v.size > 1 else v.size + 1
+                    for p in allp:
+                        tagc[0] += 1
+                        one = Resp("ok", announced=size, date=mt, data=gen_content(tagc[0], size), chunks=split_chunks(rng, size), tag=tagc[0])
+                        scripts[p] = [one] * 11
                 targets = allp if mode == "linked" else [rng.choice(allp)]
                 grp += 1
                 for p in targets:
                     if not any(e["path"] == p for e in fs):
                         fs.append({"path": p, "size": size, "mtime": mt, "tag": tagc[0], "group": grp})
+                if mode == "stale":
+                    continue
                 if mode in ("match", "linked", "wrongdate") and rng.random() < 0.8:
                     # make the server announce exactly this date and size on its first good answer
                     for p in allp:
